@@ -82,7 +82,19 @@ func buildInstances(d InstD) *liveInst {
 				}
 			}
 		}
-		cb = cb.OnClose(rec(0)).OnOpen(rec(1)).OnHalfOpen(rec(2)).OnStateChanged(rec(3)).
+		if d.BNoLsn&1 == 0 {
+			cb = cb.OnClose(rec(0))
+		}
+		if d.BNoLsn&2 == 0 {
+			cb = cb.OnOpen(rec(1))
+		}
+		if d.BNoLsn&4 == 0 {
+			cb = cb.OnHalfOpen(rec(2))
+		}
+		if d.BNoLsn&8 == 0 {
+			cb = cb.OnStateChanged(rec(3))
+		}
+		cb = cb.
 			OnSuccess(func(e failsafe.ExecutionEvent[int]) { li.log.attempt("PolSuccess", *li.bpos[i], e.ExecutionAttempt, 0) }).
 			OnFailure(func(e failsafe.ExecutionEvent[int]) { li.log.attempt("PolFailure", *li.bpos[i], e.ExecutionAttempt, 0) })
 		li.breakers = append(li.breakers, cb.Build())
